@@ -49,7 +49,12 @@ func verifEncode(rng *rand.Rand, decoded string, query bool) string {
 			b.WriteString(chunk)
 		}
 	}
-	return b.String()
+	/* a blank at the very end would be trimmed as trailing white space of a header value */
+	encoded := b.String()
+	if strings.HasSuffix(encoded, " ") {
+		encoded = encoded[:len(encoded)-1] + "%20"
+	}
+	return encoded
 }
 
 type verifURL struct {
